@@ -497,6 +497,24 @@ def falsify(ctx, hints):
             far = x.get_data(sc.mk_period(freq, sa["start"] + 500))
             if not np.all(np.isnan(far)):
                 add("map:get-outside", "a read outside the span is not NaN", inp)
+            # reads and writes addressed by an UNSORTED list of periods, some outside the current span
+            ts = rng.sample(range(sa["start"] - 4, sa["start"] + len(sa["rows"]) + 4), rng.randint(2, 5))
+            per = [sc.mk_period(freq, u) for u in ts]
+            m0 = as_map(a)
+            got = a.get_data(per); info["map_checks"] += 1
+            want_rd = np.array([[m0.get((u, c), float("nan")) for c in range(sa["nv"])] for u in ts])
+            if not _eq(got, want_rd):
+                add("map:get-unsorted", "a read at an unsorted list of periods does not return the stored values / NaN",
+                    {**inp, "periods": ts}, got.tolist(), want_rd.tolist(), "a.get_data([...unsorted periods...])")
+            y = a.copy(); newv = np.array([[_val(rng) for _ in range(sa["nv"])] for _ in ts])
+            y[per] = newv; info["map_checks"] += 1
+            want_w = dict(m0)
+            for u, row in zip(ts, newv):
+                for c in range(sa["nv"]):
+                    want_w[(u, c)] = float(row[c])
+            if as_map(y) != want_w:
+                add("map:set-unsorted", "a write at an unsorted list of periods does not change exactly the addressed cells",
+                    {**inp, "periods": ts, "values": newv.tolist()}, str(as_map(y)), str(want_w), "a[[...unsorted periods...]] = values")
             # binary operators act period by period after alignment
             for name, f in (("add", np.add), ("sub", np.subtract), ("mul", np.multiply), ("truediv", np.divide)):
                 import operator as _op
